@@ -391,3 +391,47 @@ pub fn input_bytes(r: &mut Rng) -> Vec<u8> {
         })
         .collect()
 }
+
+/// Programs for the divergence property: ordinary programs with, most of the time, one construct
+/// injected that runs forever under some inputs (empty/non-empty infinite loops, loops whose step
+/// never hits zero, I/O inside infinite loops), placed at top level or inside another loop.
+pub fn maybe_divergent(r: &mut Rng) -> String {
+    let base = match r.below(3) {
+        0 => token(r),
+        1 => structured(r),
+        _ => {
+            let mut s = String::new();
+            let mut b = 5;
+            token_program(r, &mut b, 1, &mut s);
+            s
+        }
+    };
+    if r.chance(1, 4) {
+        return base;
+    }
+    let inj: &str = *r.pick(&[
+        "+[]",
+        "+[.]",
+        "+[.+]",
+        "-[.>+<]",
+        "++[--.++]",
+        "+[>+<[-]+]",
+        "[-]+[[-]+.]",
+        "+[,.[-]+]",
+        ",[.]",
+        "++[-->++<]>[]",
+        "+[>]<[.]",
+        "[-]++[----]",       // even start, step 4: 2,254,250,... never 0 at 8 bit? 2-4k=0 mod 256 has no solution
+        "[-]+[--]",          // odd start, even step: never zero
+        "+[[]]",
+        "+[>+[]<]",
+        ">+<+[>[-]+<]",
+    ]);
+    // positions where the bracket depth is known; insert at a random top-level or nested position
+    let chars: Vec<char> = base.chars().collect();
+    let pos = r.below(chars.len() as u64 + 1) as usize;
+    let mut s: String = chars[..pos].iter().collect();
+    s.push_str(inj);
+    s.extend(chars[pos..].iter());
+    s
+}
